@@ -13,7 +13,7 @@ Inductive run_result :=
 
 Definition run (files : list (bytes * bytes)) (ss : list stmt) : run_result :=
   match run_prog {| env_files := files |} ss with
-  | ROk _ p => RunOk (pcap_of p) (rev (p_warnings p)) (rev (p_trace p))
+  | ROk _ p => RunOk (pcap_of p) (frev (p_warnings p)) (frev (p_trace p))
   | RErr e p => RunErr e (p_loc p) (pcap_of p)
   | RPanic s _ => RunPanic s
   end.
@@ -22,7 +22,7 @@ Definition run (files : list (bytes * bytes)) (ss : list stmt) : run_result :=
 From RS Require Import Interp.Cli.
 Definition run_src (files : list (bytes * bytes)) (src : bytes) : run_result :=
   match process_file catalogue class_table module_table (exec {| env_files := files |}) src with
-  | CliOk p => RunOk (pcap_of p) (rev (p_warnings p)) (rev (p_trace p))
+  | CliOk p => RunOk (pcap_of p) (frev (p_warnings p)) (frev (p_trace p))
   | CliErr e l p => RunErr e l (pcap_of p)
   | CliPanic s => RunPanic s
   end.
